@@ -26,7 +26,7 @@ META = dict(
     trusted_base=[
         'Lean 4 kernel (axioms propext, Classical.choice, Quot.sound only)',
         'Go math/big (Float.Parse/Quo/Mul/round/Int, Int.String/SetString) implements what the model transcribes; compared on every run (ops pf/parse)',
-        'encoding/json round trip of an ASCII string (evmval path), storage/rlp big.Int round trip',
+        'encoding/json round trip of an ASCII string (evmval path), storage/rlp big.Int round trip, account.AccountDB storage (ft ops) — exercised, not modelled',
         'the harness harness/cmd/c18 and the comparer in bin/vlib.py',
         'Lean core Nat.toDigits / Nat.ofDigitChars lemmas (part of the Lean distribution, kernel-checked)',
     ],
@@ -38,7 +38,7 @@ META = dict(
     explanation='strToBigInt parses through a 512-bit binary float with away-from-zero rounding, multiplies by 10^d (rounded again) and truncates. '
                 'The model reproduces big.ParseFloat for base 10 exactly (grammar, radix point as 2^-f*5^-f, pow5 table and loop, one correctly rounded '
                 'division, exponent range, Inf) and the theorems show that for every plain decimal string with value N/10^f and N*10^d < 2^510 the result is '
-                'exactly trunc(N*10^d/10^f); the format/parse round trip, both 18-decimal re-scalings and the wrapped-transaction value path follow.',
+                'exactly trunc(N*10^d/10^f); the format/parse round trip, both 18-decimal re-scalings, the bound-token balance operations of accountdb_tuntun.go and the wrapped-transaction value path follow.',
 )
 
 
